@@ -423,7 +423,7 @@ def r4(ctx, rule="C19.R4"):
     more = sym.eval_under(lo, {T_: True, EQ: False, LT: False, f"self.degree != {ot}.degree": True}, kinds=("return",))
     uses_degree = any("self.degree" in norm(c) for o in lo for c, _ in o.conds) or any(o.value is not None and "self.degree" in norm(o.value) for o in lo)
     okl = uses_degree and len(tie) == 1 and norm(tie[0][1]) == f"sorted(self.factors) < sorted({ot}.factors)" \
-        and len(less) == 1 and norm(sym.simplify(less[0][1], {LT: True})) == "True" and len(more) == 1 and norm(sym.simplify(more[0][1], {LT: False})) == "False"
+        and len(less) == 1 and sym.atom_value(less[0][1], {LT: True, EQ: False}) is True and len(more) == 1 and sym.atom_value(more[0][1], {LT: False, EQ: False}) is False
     ctx.check(okl, rule, "terms compare by degree first, then by their sorted factors", lt.where, ctx.construct(lt, text="Term.__lt__"),
               f"Term.__lt__ must order by Term.degree (which ignores literal factors) before the factor names; equal degree → {[norm(v) for _k, v, _e in tie]}, "
               f"smaller → {[norm(v) for _k, v, _e in less]}, larger → {[norm(v) for _k, v, _e in more]}: ordering by the number of factors puts `2:3:g` after `a:b`")
